@@ -20,16 +20,19 @@ PROPS["C05"] = dict(
     level="proof",
     translators=["cbits.py"],
     technique="Lean 4 theorems (bit helpers = arithmetic incl. C forms generated from bitstring.h over BitVec 64; "
-              "single-excitation entries = Spec ladder action; injectivity) + exhaustive table correspondence "
-              "with the Lean model on both code paths",
-    text="Machine-checked theorems for all word values / positions / strings about the bit helpers (Python forms and "
-         "the C forms translated from bitstring.h on every run) and the single-excitation tables; the remaining "
-         "tables (Gosper enumeration, Z-matrix addressing, operator-string and k-fold maps) are executable Lean "
-         "models compared entry by entry with the real library for every (norb<=6/9, nele) and the 31..64 "
-         "orbital boundary families.",
+              "single-excitation entries = Spec ladder action; injectivity; Z-matrix closed form, address = lexical "
+              "rank and string table = lexical k-subsets for all (n, k); the generated Gosper step and the C "
+              "generator loop = k-subsets in numeric order for all norb <= 63; operator-string loop = ladder product) "
+              "+ exhaustive table correspondence with the Lean model on both code paths",
+    text="Machine-checked theorems for all word values / positions / strings / (norb, nele) about the bit helpers "
+         "(Python forms and the C forms translated from bitstring.h and bitstring.c on every run), the string "
+         "generators (reference enumerations, Gosper's hack on 64-bit words), Knowles-Handy addressing, the string "
+         "table, the single-excitation tables and the operator-string maps; the k-fold cross-sector maps and the "
+         "de-excitation rows are executable Lean models compared entry by entry with the real library for every "
+         "(norb<=6/9, nele) and the 31..64 orbital boundary families.",
     note="Lean kernel; translator cbits.py gives C uint64_t the meaning BitVec 64 and __builtin_popcountll the "
-         "meaning 'number of set bits'; address=lexical-rank and Gosper=sorted-subsets are checked exhaustively in "
-         "the explored box, not yet proved for all norb.",
+         "meaning 'number of set bits'; that the real builders execute the modelled loops is established by the "
+         "exhaustive table comparison, not by proof.",
     design_ref="DESIGN.md §5 C05",
     rule="cases = every helper call on boundary+random 64-bit words, every table of every (norb, nele) shape in the "
          "box; non-trivial = word != 0 / shape with 0 < nele < norb / table containing a negative sign; distinct by "
@@ -325,11 +328,15 @@ PROPS["C10"] = dict(
     level="proof",
     paths=["C"],
     translators=["omp.py"],
-    technique="Lean 4 theorems (the OpenMP pragma inventory regenerated from the C sources equals the reviewed list; index "
+    technique="Lean 4 theorems (the OpenMP pragma inventory and the shared-write table of every parallel construct, regenerated "
+              "from the C sources, equal the reviewed lists; no shared scalar writes; index "
               "disjointness of the row-partition and map-injective disciplines; batching arithmetic) + bitwise multi-thread / "
               "multi-schedule / no-OpenMP differential run on exact integer data",
-    text="PARTIAL: the translator re-reads every #pragma omp (78 constructs) on each run and Lean checks the list against the "
-         "reviewed, classified list, so adding/moving/altering a parallel construct breaks an obligation; the two disciplines "
+    text="PARTIAL: the translator re-reads every #pragma omp (78 constructs) on each run, together with, for the statement each "
+         "one governs, the shared variables written directly inside it and the functions called; Lean checks both tables "
+         "against the reviewed, classified ones and proves that no shared scalar is written inside any parallel construct, so "
+         "adding/moving/altering a parallel construct, hoisting a buffer out of a loop or introducing a shared accumulator "
+         "breaks an obligation; the two disciplines "
          "that make the loops race free are proved at the index level (row partition; targets of one excitation map are "
          "pairwise distinct, from C05). An actual interleaving cannot be exhibited by the model: independence of the thread "
          "count is decided by running one battery over all accelerated kernels at 1/2/3/(5/8)/16 threads, static and dynamic "
